@@ -821,6 +821,13 @@ class Adapter:
     host_suffix: str = ""           # environ only: the scheme's own default port spelled out in the Host header (":80" / ":443")
     default_sub: str | None = None  # Map.default_subdomain at bind time (used when subdomain is None)
     mismatch: bool = False          # environ only: the configured server_name is not a suffix of the Host -> subdomain "<invalid>"
+    upgrade: bool = False           # environ only: Connection: Upgrade + Upgrade: websocket -> bound with ws (http) / wss (https)
+
+    def eff_scheme(self) -> str:
+        """the url_scheme the adapter ends up with (Map.bind_to_environ turns an upgrade request into ws / wss; pinned)"""
+        if self.environ and self.upgrade:
+            return "wss" if self.scheme == "https" else "ws"
+        return self.scheme
 
     def eff_subdomain(self):
         """the subdomain the adapter ends up with (Map.bind / Map.bind_to_environ; pinned in the translator)"""
@@ -842,14 +849,15 @@ class Adapter:
         return self.script.rstrip("/") if self.environ else self.script
 
     def enc(self) -> str:
-        return "|".join([cps(self.scheme), cps("other.invalid" if self.mismatch else self.server), cps(self.eff_script()),
+        return "|".join([cps(self.eff_scheme()), cps("other.invalid" if self.mismatch else self.server), cps(self.eff_script()),
                          "~" if self.eff_subdomain() is None else cps(self.eff_subdomain()), cps(self.query_str())])
 
     def make_environ(self, path: str = "/", method: str = "GET"):
         from werkzeug.test import create_environ
         host = (self.subdomain + "." if self.subdomain else "") + self.server + self.host_suffix
         q = self.query_str()
-        return create_environ(path, f"{self.scheme}://{host}{self.script.rstrip('/')}/", query_string=q, method=method)
+        hd = {"Connection": "Upgrade", "Upgrade": "websocket"} if self.upgrade else None
+        return create_environ(path, f"{self.scheme}://{host}{self.script.rstrip('/')}/", query_string=q, method=method, headers=hd)
 
     def bind(self, m):
         q = self.query
@@ -1392,7 +1400,7 @@ def expected_url(ad: Adapter, ms: MapSpec, new_path: str, domain: str | None = N
         sub = (ad.eff_subdomain() or "") if domain is None else domain
         host = f"{sub}.{ad.server}" if sub else ad.server
     root = ad.script.strip("/")
-    url = f"{ad.scheme or 'http'}://{host}/" + (root + "/" if root else "") + quote(new_path, safe=SAFE).lstrip("/")
+    url = f"{ad.eff_scheme() or 'http'}://{host}/" + (root + "/" if root else "") + quote(new_path, safe=SAFE).lstrip("/")
     q = ad.query_str()
     return url + ("?" + q if q else "")
 
@@ -1436,7 +1444,7 @@ def domain_part(ms: MapSpec, ad: Adapter) -> str:
 def judge(ms: MapSpec, oracles, ad: Adapter, path: str, meth: str, impl: str):
     """compare one implementation observation with the property.  Returns None or (key, what)."""
     pp = "/" + path.lstrip("/") if path else ""
-    ws = ad.scheme in ("ws", "wss")
+    ws = ad.eff_scheme() in ("ws", "wss")
     allowed, exact = oracle_outcomes(ms, oracles, domain_part(ms, ad), pp, meth.upper(), ws)
     kinds = sorted({a[0] for a in allowed})
     if impl.startswith("M "):
@@ -1555,6 +1563,76 @@ def run_cases(chk: Check, cases, label: str, lines: list, expect: list, meta: li
                     meta.append(("match", msp, path, meth, ad))
 
 
+def weight_family(rng) -> MapSpec:
+    """rules that compete at one position behind a common literal: the converter weights against each other, literal
+    text against a variable, a variable with a literal prefix (v<int:ver>) against a bare one - wide rules first or not."""
+    head = Seg(lit=rng.choice(["item", "x", "a.b"]))
+    cands = [
+        (Seg(conv=Conv("s"), name="name"),), (Seg(conv=Conv("i"), name="id"),), (Seg(conv=Conv("i"), name="ver", pre="v"),),
+        (Seg(conv=Conv("f"), name="f"),), (Seg(conv=Conv("u"), name="u"),), (Seg(conv=Conv("a", items=("a", "new", "12")), name="x"),),
+        (Seg(lit="new"),), (Seg(lit="12"),), (Seg(conv=Conv("s", exact=2), name="s2"),), (Seg(conv=Conv("i", fixed=2), name="n2"),),
+        (Seg(conv=Conv("s"), name="pre", pre="v"),), (Seg(conv=Conv("i"), name="id", post=".json"),), "tail",
+        (Seg(conv=Conv("s"), name="name"), Seg(lit="edit")), (Seg(conv=Conv("i"), name="id"), Seg(lit="edit")),
+    ]
+    picks = rng.sample(cands, rng.randint(2, 5))
+    if rng.random() < 0.6:
+        # the widest rule first: what a later, narrower rule has to overtake
+        picks.sort(key=lambda c: 0 if c == "tail" else (1 if c[0].lit is None and c[0].conv.kind == "s" and not c[0].pre else 2))
+    rules = []
+    for i, c in enumerate(picks):
+        if c == "tail":
+            rules.append(RuleSpec(idx=i, endpoint=i, segs=(head,), tail="p"))
+        else:
+            rules.append(RuleSpec(idx=i, endpoint=i, segs=(head,) + c, branch=rng.random() < 0.2))
+    return MapSpec(rules=tuple(rules), strict=rng.random() < 0.8, merge=rng.random() < 0.8)
+
+
+def run_incremental(chk: Check, cases, lines: list, expect: list, meta: list) -> None:
+    """a map that is used before it is complete: built from a prefix of the rules, matched (which sorts the transition
+    tree), then grown with Map.add one rule at a time with requests in between.  Every answer is judged by the oracles and
+    compared with the model's answer for the map holding the rules added so far - the model has no notion of when a rule
+    was added (C03_priority_any_order)."""
+    from werkzeug.routing import Map
+    for ms, paths, meths, ad in cases:
+        n = len(ms.rules)
+        if n < 2:
+            continue
+        objs = [r.make(ms.host_matching) for r in ms.rules]
+        by_obj = {id(o): r for o, r in zip(objs, ms.rules)}
+        k = chk.rng.randint(1, n - 1)
+        try:
+            m = Map(objs[:k], strict_slashes=ms.strict, merge_slashes=ms.merge, redirect_defaults=ms.redirect_defaults,
+                    host_matching=ms.host_matching)
+        except Exception as e:  # noqa: BLE001
+            chk.fail("map-construction", f"Map construction raised {type(e).__name__}: {e}", {"map": ms.describe()})
+            continue
+        for j in range(k, n + 1):
+            msj = replace(ms, rules=ms.rules[:j])
+            oracles = [RuleOracle(r, msj) for r in msj.rules]
+            for path in paths:
+                for meth in meths:
+                    impl = run_impl(m, ad, by_obj, path, meth)
+                    bad = judge(msj, oracles, ad, path, meth, impl)
+                    chk.count(f"incremental:{impl.split(' ')[0]}")
+                    if bad:
+                        chk.fail(bad[0] + "-after-add", f"map used with {k} rule(s), then grown by Map.add to {j}: " + bad[1],
+                                 {"map": msj.describe(), "built_with": k, "adapter": ad.__dict__, "path": path, "method": meth,
+                                  "observed": impl if not impl.startswith("R ") else "R " + uncps(impl[2:]), "mapspec": msj.enc(), "cfg": msj.cfg()})
+                    chk.case(("incremental", msj.cfg(), msj.enc(), k, path, meth), nontrivial=j > k and impl.split(" ")[0] != "404")
+                    lines.append(f"match {msj.cfg()} {msj.enc()} {ad.enc()} {cps(meth)} {cps(path)}")
+                    expect.append(impl)
+                    meta.append(("match", msj, path, meth, ad))
+            lines.append(f"trie {msj.cfg()} {msj.enc()}")
+            expect.append(real_trie_text(m, by_obj))
+            meta.append(("trie", msj, None, None, ad))
+            if j < n:
+                try:
+                    m.add(objs[j])
+                except Exception as e:  # noqa: BLE001
+                    chk.fail("map-construction", f"Map.add raised {type(e).__name__}: {e}", {"map": ms.describe()})
+                    break
+
+
 def compare_model(chk: Check, sub: str, lines, expect, meta, canon=canon_model):
     exe = chk.build_modelrun(sub)
     if not exe:
@@ -1602,6 +1680,15 @@ def run(chk: Check) -> None:
             ms = replace(ms, rules=tuple(replace(r, idx=i, endpoint=i) for i, r in enumerate(ms.rules)))
         cases.append((ms, gen_paths(rng, ms, 12), rng.sample(["GET", "POST", "HEAD", "PUT", "DELETE"], 2), ad))
     run_cases(chk, cases, "grammar", lines, expect, meta, perm_cap=24 if quick else 24)
+    # maps that are used while they grow (Map.add after the first match)
+    inc = []
+    for i in range(300 if quick else 4500):
+        ms = weight_family(rng) if i % 2 == 0 else gen_map(rng, nmax=5)
+        if i % 2 == 1:
+            ms = replace(ms, rules=tuple(chk.rng.sample(list(ms.rules), len(ms.rules))))
+            ms = replace(ms, rules=tuple(replace(r, idx=j) for j, r in enumerate(ms.rules)))
+        inc.append((ms, gen_paths(rng, ms, 6), [rng.choice(["GET", "GET", "POST"])], ad))
+    run_incremental(chk, inc, lines, expect, meta)
     compare_model(chk, "C03", lines, expect, meta)
 
 
@@ -1627,7 +1714,9 @@ def main(chk: Check) -> None:
     chk.finish(rule="maps of 1..6 rules from the C03 grammar (literal / pre<conv:name>post segments over string, string(length|minlength,maxlength), "
                     "int, int(fixed_digits|min|max|signed), float, any, uuid; optional trailing <path>; leaf/branch; method sets), strict_slashes x merge_slashes, "
                     "every insertion order for <= 4 rules (4 orders above), paths built from the rules to hit, nearly hit (toggled/doubled/leading slashes, "
-                    "replaced/dropped/added segments) and miss, 2 methods each; plus the fixed corpus. Non-trivial: any outcome but 404 on '/' or ''; distinct by hash.")
+                    "replaced/dropped/added segments) and miss, 2 methods each; maps that are used while they grow (built from a prefix of the rules, "
+                    "matched, then extended with Map.add one rule at a time, every answer compared with the model of the rules added so far; "
+                    "families of rules competing at one position: converter weights, literal vs variable, v<int> prefixes); plus the fixed corpus. Non-trivial: any outcome but 404 on '/' or ''; distinct by hash.")
 
 
 def replay(rep: dict) -> int:
